@@ -141,6 +141,99 @@ fn emit_cases(out: &mut Out, oa: &[&Value], ob: &[&Value], sync: bool, limit: us
     }
 }
 
+/// The protocol objects themselves: two AntiEntropyManagers with their states, the harness is the network.
+/// Steps: a local write (state + on_local_write), an update merged from a third replica (state only: gossip
+/// does not go through the manager), an exchange "X receives Y's digest" (process_peer_digest; when it reports
+/// divergence the sync request / response / push-back round follows).  Every exchange logs both states before,
+/// the verdict of the manager, and both states after the round.
+fn mgr_case(out: &mut Out, rng: &mut impl Rng, keys: &[String], depth: usize) {
+    use redis_sim::replication::anti_entropy::{AntiEntropyConfig, AntiEntropyManager};
+    let run = out.n + 1;
+    let mut cfg = AntiEntropyConfig::default();
+    cfg.merkle_tree_depth = depth;
+    cfg.max_keys_per_sync = [1usize, 2, 1000][rng.gen_range(0..3)];
+    let mut mgr = [AntiEntropyManager::new(ReplicaId::new(1), cfg.clone()), AntiEntropyManager::new(ReplicaId::new(2), cfg.clone())];
+    let mut st: [HashMap<String, ReplicatedValue>; 2] = [HashMap::new(), HashMap::new()];
+    let mut steps: Vec<Value> = Vec::new();
+    let mut ts = 0u64;
+    let nk = rng.gen_range(2..keys.len().min(5));
+    let apply = |m: &mut HashMap<String, ReplicatedValue>, u: &Value| {
+        let d = mk_delta(u);
+        let v = match m.get(&d.key) {
+            Some(c) => c.merge(&d.value),
+            None => d.value,
+        };
+        m.insert(d.key, v);
+    };
+    let res = catch(std::panic::AssertUnwindSafe(|| {
+        let n = rng.gen_range(4..=12);
+        for i in 0..n {
+            let kind = if i == n - 1 { 9 } else { rng.gen_range(0..10) };
+            match kind {
+                0..=2 => {
+                    // local write on one node
+                    let x = rng.gen_range(0..2usize);
+                    ts += 1;
+                    let u = json!({"id": ts, "k": keys[rng.gen_range(0..nk)], "t": "set", "v": format!("w{ts}"), "ts": ts, "r": x + 1});
+                    apply(&mut st[x], &u);
+                    mgr[x].on_local_write();
+                    steps.push(json!({"s": "write", "x": x + 1}));
+                }
+                3..=5 => {
+                    // an update that originated on replica 3 reaches one node, or both, by gossip
+                    ts += 1;
+                    let u = json!({"id": ts, "k": keys[rng.gen_range(0..nk)], "t": "set", "v": format!("g{ts}"), "ts": ts, "r": 3});
+                    let to = rng.gen_range(0..3usize);
+                    for x in 0..2 {
+                        if to == 2 || to == x {
+                            apply(&mut st[x], &u);
+                        }
+                    }
+                    steps.push(json!({"s": "gossip", "to": to}));
+                }
+                _ => {
+                    // x receives y's digest
+                    let x = rng.gen_range(0..2usize);
+                    let y = 1 - x;
+                    let before = json!([state_json(&st[0], depth), state_json(&st[1], depth)]);
+                    let dy = mgr[y].generate_digest(&st[y]);
+                    let dx = mgr[x].generate_digest(&st[x]);
+                    let verdict = mgr[x].process_peer_digest(dy, &dx);
+                    let mut ev = json!({"s": "exchange", "x": x + 1, "before": before, "insync": verdict.is_none(), "buckets": verdict.clone().unwrap_or_default()});
+                    if let Some(buckets) = verdict {
+                        let req = mgr[x].create_sync_request(ReplicaId::new(y as u64 + 1), dx, Some(buckets.clone()), 1000 + i as u64);
+                        let (mx, my) = if x == 0 { let (a, b) = mgr.split_at_mut(1); (&mut a[0], &mut b[0]) } else { let (a, b) = mgr.split_at_mut(1); (&mut b[0], &mut a[0]) };
+                        let resp = my.handle_sync_request(req, &st[y]);
+                        for d in resp.deltas {
+                            let v = match st[x].get(&d.key) {
+                                Some(c) => c.merge(&d.value),
+                                None => d.value.clone(),
+                            };
+                            st[x].insert(d.key.clone(), v);
+                        }
+                        // and x pushes its side of the divergent buckets back
+                        let back = mx.get_keys_in_buckets(&st[x], &buckets);
+                        for d in back {
+                            let v = match st[y].get(&d.key) {
+                                Some(c) => c.merge(&d.value),
+                                None => d.value.clone(),
+                            };
+                            st[y].insert(d.key.clone(), v);
+                        }
+                        ev["after"] = json!([state_json(&st[0], depth), state_json(&st[1], depth)]);
+                    }
+                    steps.push(ev);
+                }
+            }
+        }
+    }));
+    let mut ev = json!({"t": "mgr", "run": run, "depth": depth, "steps": steps});
+    if let Err(p) = res {
+        ev["panic"] = json!(p);
+    }
+    out.emit(&ev);
+}
+
 pub fn main(args: &[String]) -> i32 {
     let a = Args::parse(args);
     quiet_panics();
@@ -210,6 +303,7 @@ pub fn main(args: &[String]) -> i32 {
             }
         }
         emit_cases(&mut out, &oa, &ob, i % 2 == 0, rng.gen_range(1..=3usize), keys.len(), depth);
+        mgr_case(&mut out, &mut rng, keys, depth);
     }
     println!("{{\"cases\": {}}}", out.finish());
     0
